@@ -122,7 +122,7 @@ theorem R_optDisconnect {s : St} {t : Spec.LSt} (hs : Emit.Inv s) (hR : R s t) {
 /-- the invariant survives the invalidation of the slot variables -/
 theorem inv_mapS {off : Nat → Nat} {s : St} (h : Emit.InvX off s) (o : Nat) :
     Emit.InvX off { s with S := amap s.S (fun v => if v.slot.tracksObj o then { v with slot := v.slot.invalidate } else v) } := by
-  refine ⟨h.keys, h.lt, h.ok, h.disj, h.himpl, ?_, h.fwdC, h.noerr⟩
+  refine ⟨h.keys, h.lt, h.ok, h.disj, h.himpl, ?_, h.fwdC, h.noerr, h.own⟩
   intro j w hw
   simp only [aget_amap] at hw
   cases hj : aget s.S j with
@@ -137,7 +137,7 @@ theorem inv_mapS {off : Nat → Nat} {s : St} (h : Emit.InvX off s) (o : Nat) :
 theorem R_invalidateTrackable {s : St} {t : Spec.LSt} (hs : Emit.Inv s) (hR : R s t) (o : Nat) :
     R (Model.invalidateTrackable s o) (Spec.invalidateTrackable t o) := by
   cases t with
-  | mk tT tS tG tC tK tsigs tOT tOK tn td tst ttr terr k1 k2 =>
+  | mk tT tS tG tC tK tsigs tOT tOK tOG tn td tst ttr terr k1 k2 =>
   have hk1 : k1 = true := hR.k1
   have hk2 : k2 = true := hR.k2
   have hS : tS = s.S := hR.S
